@@ -235,8 +235,48 @@ def r5(ctx):
         ctx.ok(rule, "full-scope", detail)
 
 
+def r6(ctx):
+    rule = "C12.R6"
+    ctx.rule(rule, "an absent object identifier matches nothing: every hand-written equality test between two "
+                   "Option<ObjectIdentifier> values that selects a module is evaluated only when one side is known to be Some "
+                   "(a dominating is_some test) - otherwise `None == None` makes the first module without an OID the exporter of "
+                   "every import without an OID, and resolution depends on the load order")
+    P = ctx.program()
+    n = 0
+    for b in P.lib_bodies("asn1rs_model"):
+        if getattr(b, "derived", False) or "::tests::" in b.path:
+            continue
+        O = None
+        for cs in b.calls():
+            if cs.name not in ("eq", "ne") or not all("Option<" in t and "ObjectIdentifier" in t for t in cs.term.get("argtys", ["-"])):
+                continue
+            O = O or X.Origins(b, P)
+            n += 1
+            args = [F.rd(R.positional(a)) for a in O.call_args(cs)]
+            guarded = None
+            for g in b.calls():
+                if g.name == "is_some" and g.target is not None:
+                    ga = F.rd(R.positional(O.call_args(g)[0]))
+                    if ga not in args:
+                        continue
+                    t = b.blocks[g.target]["term"]
+                    if t and t["k"] == "switch" and len(t["targets"]) == 1:
+                        true_bb = t["otherwise"] if int(t["vals"][0]) == 0 else t["targets"][0]
+                        if true_bb == cs.bb or b.dominates(true_bb, cs.bb):
+                            guarded = g
+            key = "%s#oid-eq" % (b.root or b.path)
+            detail = {"function": b.path, "compares": args, "guarded_by": guarded.loc() if guarded else None}
+            if guarded is None:
+                ctx.fail(rule, key, "two optional object identifiers are compared without requiring one of them to be present: a module "
+                                    "without an OID matches every import without an OID", cs.loc(), detail)
+            else:
+                ctx.ok(rule, key, detail)
+    ctx.floor(rule, n, "C12.R6.sites")
+
+
 def run(ctx):
     r1_r2(ctx)
     r3(ctx)
     r4(ctx)
     r5(ctx)
+    r6(ctx)
